@@ -451,6 +451,19 @@ def apply_mod_mapping(match, molecule, graph_out, mol_to_out, out_to_mol):
         if modification not in graph_out.nodes[out_idx]['modifications']:
             graph_out.nodes[out_idx]['modifications'].append(modification)
 
+    # The particles this modification creates belong to the residue(s) it
+    # modifies: give them the residue number of an existing particle of the
+    # modification, preferably one they are bonded to. Otherwise they keep the
+    # number written in the modification, and merge_molecule would continue
+    # numbering the following residues from there.
+    existing = [idx for idx in modification if node_should_exist(modification, idx)]
+    for mod_idx in modification:
+        if existing and not node_should_exist(modification, mod_idx):
+            anchors = [idx for idx in modification[mod_idx] if idx in existing] or existing
+            anchor_resid = graph_out.nodes[mod_to_out[anchors[0]]].get('resid')
+            if anchor_resid is not None:
+                graph_out.nodes[mod_to_out[mod_idx]]['resid'] = anchor_resid
+
     for mol_idx in mol_to_mod:
         for mod_idx, weight in mol_to_mod[mol_idx].items():
             out_idx = mod_to_out[mod_idx]
